@@ -289,8 +289,8 @@ func runC07(c *Ctx) {
 	}
 	if hd := c.mustMethod("C07.R4", "wire", "Session", "handleDescribe"); hd != nil {
 		R.Analysed(fname(hd))
-		wcd := c.P.Method("wire", "Session", "writeColumnDescription")
-		wpd := c.P.Method("wire", "Session", "writeParameterDescription")
+		sinks := c.describeSinks(hd)
+		nSink := 0
 		gs := getStrings(hd)
 		var name ssa.Value
 		if len(gs) >= 1 {
@@ -301,28 +301,29 @@ func runC07(c *Ctx) {
 				call := ci.(*ssa.Call)
 				R.Check(name != nil && call.Call.Args[1] == name, "C07.R5", "Describe:"+kind+":name", c.at(call), "Describe looks up the name carried by the message", "lookup name is the message's string field", "the lookup name is not the message's name field")
 				obj := resultOf(call, 0)
-				for _, w := range callsIn(hd, calleeIs(wcd)) {
-					if !anyDominates(nilEdges(obj, false), w.Block()) {
+				for _, w := range sinks {
+					if !anyDominates(nilEdges(obj, false), w.where) {
 						continue
 					}
-					args := w.Common().Args
-					rc, pc := pathOf(args[len(args)-1])
+					nSink++
+					rc, pc := pathOf(w.cols)
 					if kind == "PortalCache" {
-						rf, pf := pathOf(args[len(args)-2])
-						R.Check(rc == obj && pc == ".statement.columns" && rf == obj && pf == ".formats", "C07.R4", "Describe-portal:uses-looked-up-portal", c.at(w), "Describe-portal announces the looked-up portal's statement columns with that Bind's result formats", "writeColumnDescription(portal.formats, portal.statement.columns)", "the description is not built from the looked-up portal")
+						rf, pf := pathOf(w.fm)
+						R.Check(rc == obj && pc == ".statement.columns" && rf == obj && pf == ".formats", "C07.R4", "Describe-portal:uses-looked-up-portal", c.at(w.at), "Describe-portal announces the looked-up portal's statement columns with that Bind's result formats", "writeColumnDescription(portal.formats, portal.statement.columns)", "the description is not built from the looked-up portal")
 					} else {
-						R.Check(rc == obj && pc == ".columns" && core.IsNilConst(args[len(args)-2]), "C07.R4", "Describe-statement:uses-looked-up-statement", c.at(w), "Describe-statement announces the looked-up statement's columns (formats unknown yet)", "writeColumnDescription(nil, statement.columns)", "the description is not built from the looked-up statement")
+						R.Check(rc == obj && pc == ".columns" && core.IsNilConst(w.fm), "C07.R4", "Describe-statement:uses-looked-up-statement", c.at(w.at), "Describe-statement announces the looked-up statement's columns (formats unknown yet)", "writeColumnDescription(nil, statement.columns)", "the description is not built from the looked-up statement")
 					}
 				}
 				if kind == "StatementCache" {
-					for _, w := range callsIn(hd, calleeIs(wpd)) {
-						args := w.Common().Args
-						rp, pp := pathOf(args[len(args)-1])
-						R.Check(rp == obj && pp == ".parameters", "C07.R4", "Describe-statement:parameter-list", c.at(w), "ParameterDescription announces the looked-up statement's declared parameter types", "writeParameterDescription(statement.parameters)", "the parameter list announced is not the looked-up statement's")
+					for _, s := range c.paramDescriptionSites() {
+						for i, w := range s.at {
+							R.Check(s.countRoot[i] == obj && s.countPath[i] == ".parameters", "C07.R4", "Describe-statement:parameter-list", c.at(w), "ParameterDescription announces the looked-up statement's declared parameter types", "writeParameterDescription(statement.parameters)", "the parameter list announced is not the looked-up statement's")
+						}
 					}
 				}
 			}
 		}
+		R.Floor("C07.R4", "descriptions built from a looked-up object in handleDescribe", nSink, 2)
 	}
 
 	// ---------- R5: wire field -> sink
